@@ -94,4 +94,36 @@ def check(tier='quick', seed=0):
                 return fail(clause='Model.interpolate_to_grid: resistivity and conductivity models give different physical models', origin=off)
             if model.interpolate_to_grid(g1) is not model:
                 return fail(clause='identical grid must return the model itself')
+    # the transpose used for gradients: <interpolate(v), w> == <v, adj(w)> for a SEQUENCE of grid pairs in one process that share
+    # the bounding box and the cell counts but differ in their interior nodes (and for pairs that differ in everything)
+    try:
+        import discretize  # noqa: F401
+        have = True
+    except ImportError:
+        have = False
+    if have:
+        base = emg3d.TensorMesh([np.full(6, 10.0), np.full(4, 10.0), np.full(5, 8.0)], origin=(0.0, -20.0, -40.0))
+        comps = []
+        for k in range(4 if tier == 'quick' else 10):
+            nodes = []
+            for v in (base.nodes_x, base.nodes_y, base.nodes_z):
+                w = v.copy()
+                if k:
+                    w[1:-1] += rng.uniform(-3.0, 3.0, len(w) - 2)
+                nodes.append(np.sort(w))
+            comps.append(emg3d.TensorMesh([np.diff(v) for v in nodes], origin=(0.0, -20.0, -40.0)))
+        comps.append(emg3d.TensorMesh([np.full(3, 20.0), np.full(8, 5.0), np.full(2, 20.0)], origin=(0.0, -20.0, -40.0)))
+        for g2 in comps:
+            cases += 1
+            v = rng.standard_normal(base.shape_cells)
+            w3 = rng.standard_normal((3, *g2.shape_cells))
+            fwd = emg3d.maps.interpolate(base, v, g2, method='volume')
+            back = np.zeros((3, *base.shape_cells))
+            emg3d.maps._interp_volume_average_adj(back, base, w3, g2)
+            for c in range(3):
+                lhs, rhs = np.sum(fwd * w3[c]), np.sum(v * back[c])
+                if abs(lhs - rhs) > 1e-9 * max(abs(lhs), abs(rhs), 1.0):
+                    return fail(clause='the transpose used for gradients is not the transpose of interpolate(method=volume) for this grid pair '
+                                       '(sequence of pairs with equal bounding box and cell counts)', component=c, lhs=float(lhs), rhs=float(rhs),
+                                nodes_x=g2.nodes_x.tolist())
     return dict(reproduced=False, cases=cases)
